@@ -2,7 +2,7 @@
    arbitrary value tables including ties. *)
 From Coq Require Import QArith List Bool.
 From VOPy Require Import Optimize OptimizeProofs OptLoop OptRefine.
-From VOPyGen Require Import Gen_opt.
+From VOPyGen Require Import Gen_opt Gen_acq.
 From VOPy Require Spec.
 From VOPyGen Require Gen_algos.
 Import ListNotations.
@@ -70,3 +70,19 @@ Theorem C07_regenerated_optimiser_is_the_model : forall q l, NoDup (map fst l) -
   gen_optimize_acqf_discrete q l = opt_discrete q l.
 Proof. exact gen_optimize_is_model. Qed.
 Print Assumptions C07_regenerated_optimiser_is_the_model.
+
+(* the acquisition values REGENERATED from the source: SumVariance adds only the DIAGONAL of a design's posterior covariance
+   (off-diagonal entries never matter), the decoupled acquisition is the requested objective's variance over its cost *)
+Theorem C07_sum_variance_ignores_covariances : forall cov cov',
+  mat_diag cov = mat_diag cov' -> gen_sum_variance cov = gen_sum_variance cov'.
+Proof. intros cov cov' H. unfold gen_sum_variance. rewrite H. reflexivity. Qed.
+Print Assumptions C07_sum_variance_ignores_covariances.
+Theorem C07_sum_variance_2x2_3x3 : forall a b c d e f g h k,
+  gen_sum_variance [[a; b]; [c; d]] == a + d /\ gen_sum_variance [[a; b; c]; [d; e; f]; [g; h; k]] == a + e + k.
+Proof. intros. unfold gen_sum_variance, mat_diag. cbn [mat_diag_from nth vsum_q]. split; ring. Qed.
+Print Assumptions C07_sum_variance_2x2_3x3.
+Theorem C07_decoupled_value_is_variance_over_cost : forall cov e costs,
+  gen_max_variance_decoupled cov e None = nth e (mat_diag cov) 0 /\
+  gen_max_variance_decoupled cov e (Some costs) = nth e (mat_diag cov) 0 / nth e costs 0.
+Proof. intros. split; reflexivity. Qed.
+Print Assumptions C07_decoupled_value_is_variance_over_cost.
